@@ -77,13 +77,16 @@ def showOut (o : Out) : String :=
   let ecs := if o.kind == .ok then showECS (ecsOpts o.rextra) else "-"
   s!"{kind} up={up} tok={tok} ecs={ecs}"
 
+/-- The bytes of a name token. -/
+def nameBytes (s : String) : List Nat := s.toUTF8.toList.map (·.toNat)
+
 def parseReq : List String → Option (Req × Up)
   | rf :: ra :: h :: qt :: qc :: nrr :: rest =>
     let rr := takeRRs (nat! nrr) rest
     match rr.2 with
     | uk :: ca :: tok :: hasopt :: nopt :: rest' =>
       let uo := takeOpts (nat! nopt) rest'
-      some (⟨fam! rf, nat! ra, nat! h, nat! qt, nat! qc, rr.1, none, none⟩,
+      some (⟨fam! rf, nat! ra, hostOfName (nameBytes h), nat! qt, nat! qc, rr.1, none, none, qnOfName (nameBytes h)⟩,
         ⟨uk != "0", bool! ca, nat! tok, if bool! hasopt then [⟨false, uo.1⟩] else []⟩)
     | _ => none
   | _ => none
@@ -129,7 +132,7 @@ def step (s : S) : List String → S × String
   | ["cap", n, e] => ({ s with capN := nat! n, capE := nat! e }, "ok")
   -- the GeoIP databases are refreshed: the tables are replaced, the caches live on
   | ["regeo"] => ({ s with data := [], sub := [] }, "ok")
-  | ["fake", h] => ({ s with fake := nat! h :: s.fake }, "ok")
+  | ["fake", h] => ({ s with fake := qnOfName (nameBytes h) :: s.fake }, "ok")
   | ["data", f, a, c, sd, asn] =>
     ({ s with data := ((fam! f, nat! a), ⟨nat! c, nat! sd, nat! asn⟩) :: s.data }, "ok")
   | ["sub", c, sd, asn, f, pf, pa, pb] =>
@@ -151,7 +154,8 @@ def step (s : S) : List String → S × String
   | ["gsub", c, sd, a, f] =>
     let p := s.db.subnetByLocation ⟨nat! c, nat! sd, nat! a⟩ (fam! f)
     (s, s!"{if p.fam == .v4 then 4 else 6} {p.addr} {p.bits}")
-  | ["dep", scope, h] => (s, showB (respIsECSDependent s.env (nat! scope) (nat! h)))
+  | ["dep", scope, h] => (s, showB (respIsECSDependent s.env (nat! scope) (qnOfName (nameBytes h))))
+  | ["norm", h] => (s, String.join ((normalizeDomain (nameBytes h)).map fun b => toString (Char.ofNat b)))
   | "req" :: rest =>
     match parseReq rest with
     | some ru =>
